@@ -268,6 +268,10 @@ class Filer(hioing.Mixin):
         if os.path.isabs(base):
             raise hioing.FilerError(f"Not relative {base=} path.")
 
+        rel = os.path.normpath(os.path.join(base, name))  # collapse any .. segments
+        if rel == os.pardir or rel.startswith(os.pardir + os.sep):
+            raise hioing.FilerError(f"Path {base=} {name=} escapes head directory.")
+
         file = None
         temp = True if temp else False
 
